@@ -455,9 +455,36 @@ package dials
 // Config
 // ---------------------------------------------------------------------------------------------
 
-// Sources and watchers are user code: called by contract, they cannot touch the ghost protocol state.
+// Sources, decoders and watchers are user code: called by contract, they cannot touch the ghost protocol
+// state.  A value is "shaped for" a type when it is a valid value of that type or a pointer to it
+// (compose dereferences pointers).  Calls are recorded in call-history ghosts.
+//@ macro shaped(v Val, t RType) bool = valid(v) && (vtype(v) == t || vtype(v) == ptrTo(t))
 //@ iface dials.Source.Value(s, ctx, typ) (v, err)
+//@   flag record sourceValue
+//@   ensures err == nil ==> shaped(v, as(typ, "*dials.Type").t)
+//@ iface dials.Decoder.Decode(d, r, typ) (v, err)
+//@   flag record decode
+//@   ensures err == nil ==> shaped(v, as(typ, "*dials.Type").t)
 //@ iface dials.Watcher.Watch(w, ctx, typ, args) (err)
+//@   flag record watch
+//@ iface dials.WatchArgs.ReportNewValue(wa, ctx, val) (err)
+//@   flag record waReport
+//@ iface dials.WatchArgs.BlockingReportNewValue(wa, ctx, val) (err)
+//@   flag record waBlockingReport
+//@ iface dials.WatchArgs.Done(wa, ctx)
+//@   flag record waDone
+//@ iface dials.WatchArgs.ReportError(wa, ctx, e) (err)
+//@   flag record waReportError
+
+//@ func dials.NewType(t) (r)
+//@   props C20
+//@   safety C16
+//@   ensures r != nil && fresh(r) && r.t == t
+//@ func dials.(*Type).Type(t) (r)
+//@   props C20
+//@   safety C16
+//@   requires dials_type_nonnil: t != nil
+//@   ensures r == t.t
 
 //@ func dials.realDeepCopy(in) (out)
 //@   ensures in != nil ==> valid(out) && vtype(out) == typeOfDyn(dyn(in)) && canInterface(out)
